@@ -51,3 +51,6 @@ Proof. vm_compute. reflexivity. Qed.
 
 Lemma inventory : map (fun x => (fst (fst x), snd x)) call_sites = expected_sites.
 Proof. vm_compute. reflexivity. Qed.
+
+Lemma guards : call_site_guards = expected_guards.
+Proof. vm_compute. reflexivity. Qed.
